@@ -63,10 +63,16 @@ class FastNetlist(Netlist):
                 raise RuntimeError("combinational logic does not settle (oscillating combinational loop)")
 
 
-def build_sram(dw, depth, aw, ro=False, burst=False, init=None, from_memory=False):
+def build_sram(dw, depth, aw, ro=False, burst=False, init=None, from_memory=False, default_bus=False):
     """`from_memory`: hand SRAM a ready-made Memory object (its other constructor path); read-only is then
     announced through the memory's `bus_read_only` attribute, as LiteX ROM helpers do."""
     top = Top()
+    if default_bus:
+        # SRAM's own bus (bus=None): Interface(data_width=32, address_width=32, addressing="word")
+        assert dw == 32 and aw == 30 and not burst and not from_memory
+        top.submodules.sram = wishbone.SRAM(depth * (dw // 8), read_only=ro, init=init)
+        top.master = top.sram.bus
+        return top
     top.master = wishbone.Interface(data_width=dw, adr_width=aw, bursting=burst)
     if from_memory:
         from migen import Memory
@@ -86,6 +92,13 @@ def build_direct(kind, dw, aw):
     top.slave = wishbone.Interface(data_width=dw, adr_width=aw)
     if kind == "converter":
         top.submodules.conv = wishbone.Converter(top.master, top.slave)
+    elif kind == "pads":
+        # Interface.get_ios -> platform pads -> connect_to_pads on both sides: master port -> pads -> slave port
+        from litex.build.sim import SimPlatform
+        plat = SimPlatform("SIM", top.master.get_ios("wb"))
+        top.pads = plat.request("wb")
+        top.comb += top.master.connect_to_pads(top.pads, mode="master")   # a bus master drives the pads
+        top.comb += top.slave.connect_to_pads(top.pads, mode="slave")     # ... and the pads drive a bus (slave side)
     else:
         top.submodules.cache = wishbone.Cache(0, top.master, top.slave)
     return top
@@ -189,6 +202,31 @@ def build_wb2csr(dw, aw, register, caw=14, addressing="word"):
     return top
 
 
+def build_wb2csr_bank(dw, aw, register, regs, caw=14, paging=0x800, address=0, ordering="big", addressing="word"):
+    """Wishbone2CSR wired to a real `csr_bus.CSRBank` of CSRStorage registers; `regs` = [(size, reset, atomic)]."""
+    from litex.soc.interconnect import csr
+    top = Top()
+    top.master = wishbone.Interface(data_width=dw, adr_width=aw, addressing=addressing)
+    top.csrbus = csr_bus.Interface(data_width=dw, address_width=caw)
+    top.submodules.bridge = wishbone.Wishbone2CSR(bus_wishbone=top.master, bus_csr=top.csrbus, register=register)
+    top.regs = [csr.CSRStorage(size, reset=reset, atomic_write=atomic, name="reg%d" % k)
+                for k, (size, reset, atomic) in enumerate(regs)]
+    top.submodules.bank = csr_bus.CSRBank(top.regs, address=address, bus=top.csrbus, paging=paging, ordering=ordering)
+    return top
+
+
+def bank_word_map(dw, regs, paging, address, ordering="big"):
+    """CSR word address -> (register index, word index) of a CSRBank, written from the CSR documentation (a register
+    of n bus words occupies n consecutive addresses, most significant word first for "big" ordering)."""
+    out, a = {}, address * (paging // 4)
+    for k, (size, reset, atomic) in enumerate(regs):
+        n = (size + dw - 1) // dw
+        for p in range(n):
+            out[a + p] = (k, (n - 1 - p) if ordering == "big" else p)
+        a += n
+    return out
+
+
 def cache_geometry(cachesize, dwm, dws, awm, aws):
     """The address split computed by wishbone.Cache.__init__ (recomputed here for the model parameters)."""
     offsetbits = log2i(max(dws // dwm, 1))
@@ -225,7 +263,9 @@ class MasterMemMonitor:
     (unselected lanes are unspecified).  Also: ack only while a strobe is presented, and every presented
     strobe is acknowledged within `max_wait` cycles.  The oracle judges only histories inside the property's
     quantifier: if the master changes or withdraws an un-acknowledged request, or breaks the burst rules
-    (incrementing burst not continued, wrong next address), it stops judging (`void`)."""
+    (an incrementing beat followed by a strobe with the wrong address/we/cti), it stops judging (`void`).  Master
+    wait states inside a burst (STB low, CYC held, anything on the other lines), bursts abandoned by dropping CYC
+    and bursts ended early with CTI=7 are legal and judged."""
 
     def __init__(self, nb, total_bytes, init_bytes=None, max_wait=64, adr_map=None, bursts=False,
                  write_mask_all=False, read_only=False, init_fn=None, byte_map=None, ro_ranges=(), backing=None):
@@ -246,6 +286,7 @@ class MasterMemMonitor:
         self.write_mask_all = write_mask_all
         self.read_only = read_only
         self.completed = 0
+        self.pre_acks = 0
 
     def byte_addr(self, adr, lane):
         if self.byte_map is not None:
@@ -262,13 +303,23 @@ class MasterMemMonitor:
         if self.pending is not None and (not active or req != self.pending):
             self.void = True          # master left the classic protocol
             return None
+        pre_ack = False
         if self.expect_next is not None:
             exp = self.expect_next
             self.expect_next = None
-            if not active or (adr, we) != exp or cti not in (CTI_INC, CTI_END):
+            if active and ((adr, we) != exp or cti not in (CTI_INC, CTI_END)):
                 self.void = True      # burst not continued as the Wishbone burst rules require
                 return None
+            # not active: a master wait state (STB low, CYC held) or an aborted burst (CYC dropped) - both legal;
+            # whatever the master presents afterwards is a new cycle.  A registered-feedback slave that was told
+            # (CTI=010) that another beat follows may have its acknowledge up already in this cycle: the master
+            # presents no strobe, so this is not the acknowledge of any bus cycle (Wishbone B4 rules 3.50/3.55).
+            pre_ack = not active
         if ack and not active:
+            if pre_ack:
+                self.wait = 0
+                self.pre_acks += 1
+                return None
             return "ack while no strobe is presented (cyc=%d stb=%d)" % (cyc, stb)
         if not active:
             self.wait = 0
@@ -486,11 +537,11 @@ class ClassicMaster:
             dmax = (1 << (8 * self.nb)) - 1
             if k < 0.6:
                 return (0, 0, 0, 0, 0, 0, 0, 0)
-            if k < 0.8:    # cyc without stb, garbage on the other lines
+            if k < 0.8:    # cyc without stb (master wait state), garbage on the other lines incl. the burst tags
                 return (1, 0, rng.randint(0, 1), rng.randint(0, self.adr_max), rng.randint(0, (1 << self.nb) - 1),
-                        rng.randint(0, dmax), 0, 0)
+                        rng.randint(0, dmax), rng.choice((0, 2, 7, 1, 5)), rng.randint(0, 3))
             return (0, rng.randint(0, 1), rng.randint(0, 1), rng.randint(0, self.adr_max),
-                    rng.randint(0, (1 << self.nb) - 1), rng.randint(0, dmax), 0, 0)
+                    rng.randint(0, (1 << self.nb) - 1), rng.randint(0, dmax), rng.choice((0, 2, 7)), rng.randint(0, 3))
         adr = rng.choice(self.hot) if rng.random() < 0.8 else rng.randint(0, self.adr_max)
         we = 1 if rng.random() < 0.5 else 0
         full = (1 << self.nb) - 1
@@ -503,25 +554,35 @@ class ClassicMaster:
 
 
 class BurstMaster:
-    """Registered-feedback burst master: beats of an incrementing/wrapping burst are presented back to back
-    (cyc/stb stay asserted), each held until acknowledged, the last beat carries CTI=7; classic and
-    constant-address cycles in between."""
+    """Registered-feedback burst master doing everything a Wishbone B4 master may do: each beat of an
+    incrementing/wrapping burst is held until acknowledged and the last beat carries CTI=7; between two beats it
+    may insert wait states (STB low, CYC held; the other lines held or garbage), abandon the burst by dropping
+    CYC, or end it early with CTI=7; bursts follow each other with or without idle cycles (change of WE between
+    back-to-back bursts); classic and constant-address cycles in between."""
 
-    def __init__(self, nb, adr_max, linear_only=False):
-        self.nb, self.adr_max, self.linear_only = nb, adr_max, linear_only
+    def __init__(self, nb, adr_max, linear_only=False, waits=True):
+        self.nb, self.adr_max, self.linear_only, self.waits = nb, adr_max, linear_only, waits
         self.reset()
 
     def reset(self):
         self.beats = []
-        self.cur = None
+        self.cur = None         # strobed beat presented and not yet seen acknowledged
+        self.gap = []           # non-strobed letters still to present (wait states / CYC dropped)
+
+    def _garbage(self, rng, cyc):
+        return (cyc, 0 if cyc else rng.randint(0, 1), rng.randint(0, 1), rng.randint(0, self.adr_max),
+                rng.randint(0, (1 << self.nb) - 1), rng.randint(0, (1 << (8 * self.nb)) - 1),
+                rng.choice((0, 2, 2, 7, 1)), rng.randint(0, 3))
 
     def next(self, rng, t, last_letter, last_outs):
         if self.cur is not None and last_outs is not None and not last_outs[0]:
             return self.cur
+        self.cur = None
+        if self.gap:
+            return self.gap.pop(0)
         if not self.beats:
             if rng.random() < 0.3:
-                self.cur = None
-                return (0, 0, 0, 0, 0, 0, 0, 0)
+                return (0, 0, 0, 0, 0, 0, 0, 0) if rng.random() < 0.7 else self._garbage(rng, rng.randint(0, 1))
             adr = rng.randint(0, self.adr_max)
             we = rng.randint(0, 1)
             full = (1 << self.nb) - 1
@@ -539,6 +600,21 @@ class BurstMaster:
                                        rng.randint(0, (1 << (8 * self.nb)) - 1),
                                        CTI_END if b == n - 1 else CTI_INC, bte))
                     adr = burst_next(adr, bte) & self.adr_max
+        elif self.waits:
+            # between two beats of a burst (the previous beat has just been acknowledged)
+            k = rng.random()
+            nxt = self.beats[0]
+            if k < 0.14:        # wait states: STB low, CYC/CTI/ADR... of the coming beat held
+                self.gap = [(1, 0) + tuple(nxt[2:])] * rng.randint(1, 3)
+            elif k < 0.20:      # wait states with garbage on the other lines
+                self.gap = [self._garbage(rng, 1) for _ in range(rng.randint(1, 2))]
+            elif k < 0.24:      # burst abandoned: CYC dropped (rest of the burst is not transferred)
+                self.beats = []
+                self.gap = [(0, 0) + tuple(nxt[2:])] if rng.random() < 0.5 else [self._garbage(rng, 0)]
+            elif k < 0.28:      # burst ended early: the coming beat carries CTI=7
+                self.beats = [tuple(nxt[:6]) + (CTI_END, nxt[7])]
+            if self.gap:
+                return self.gap.pop(0)
         self.cur = self.beats.pop(0)
         return self.cur
 
@@ -685,6 +761,24 @@ class WbInst:
         return self._monitor() if self._monitor else _NoMonitor()
 
 
+class BankInst(WbInst):
+    """Wishbone2CSR + CSRBank: letters = master request; outs = m.ack m.dat_r m.err + (storage_k re_k)* as the
+    device side sees the registers."""
+
+    def __init__(self, name, top, lean_open, **kw):
+        WbInst.__init__(self, name, top, lean_open, kind="slave", **kw)
+        self.qual = [None, 0, None] + [None, None] * len(top.regs)
+        self.letter_format = FMT_SLAVE
+
+    def sample(self):
+        n, m = self.netlist, self.m
+        outs = [n.getu(m.ack), n.getu(m.dat_r), n.getu(m.err)]
+        for r in self.top.regs:
+            outs += [n.getu(r.storage), n.getu(r.re)]
+        self.last_outs = outs
+        return outs
+
+
 class _NoMonitor:
     def observe(self, letter, outs):
         return None
@@ -712,12 +806,22 @@ class CsrGen:
 # ---------------------------------------------------------------------------------------------------------
 # Alphabets for exhaustive co-exploration
 
-def master_letters(nb, adrs, sels, dat_values, ctis=((0, 0),), extra_idle=True):
+def master_letters(nb, adrs, sels, dat_values, ctis=((0, 0),), extra_idle=True, waits=True):
     """idle / cyc-only / stb-only letters plus every request(adr, we, sel, dat) with cyc = stb = 1.
-    Reads carry dat_w = 0 only."""
+    Reads carry dat_w = 0 only.  `waits`: master wait states (STB low, CYC held) and dropped cycles (CYC low, STB
+    high) that keep the other lines driven like a request - write enable, address, data and every burst tag of
+    the alphabet (plus CTI=010/111 where the alphabet has none): what a master does between two beats."""
     L = [(0, 0, 0, 0, 0, 0, 0, 0)]
     if extra_idle:
         L += [(1, 0, 0, 0, 0, 0, 0, 0), (0, 1, 1, 0, (1 << nb) - 1, dat_values[-1], 0, 0)]
+    if waits:
+        adrs = list(adrs)
+        tags = [t for t in dict.fromkeys(tuple(t) for t in ctis) if t[0] != 0]
+        tags = tags or [(2, 0), (7, 1)]
+        for k, (cti, bte) in enumerate(tags):
+            L.append((1, 0, 1, adrs[-1 - (k % len(adrs))], (1 << nb) - 1, dat_values[-1], cti, bte))
+        L.append((1, 0, 0, adrs[0], 1, 0, tags[0][0], tags[0][1]))
+        L.append((0, 1, 0, adrs[-1], 1, 0, tags[0][0], tags[0][1]))
     for cti, bte in ctis:
         for a in adrs:
             for sel in sels:
